@@ -1,4 +1,4 @@
-"""C06 binding demonstration: source mutations of the anchored code (p2hex.c, headids.c), each applied to a scratch
+"""C06 binding demonstration: source mutations of the anchored code (p2hex.c, headids.c, toolutils.c), each applied to a scratch
 copy of the repository and of /verif (outside both; removed afterwards), built into its own cache and run through
 `./check C06 --tier quick`.  Every mutant compiles, passes the repository's 201 tests (p2hex is not run by any test)
 and must make the check exit 1 with VIOLATION lines.   usage: python3 selftest/c06_mutants.py [mutant names]"""
@@ -24,6 +24,9 @@ MUT = {
  # (Intel-16 segment rounded to 256 bytes was tried too: output stays valid and decodes right - an equivalent mutant)
  "m18_firstbank_carry": [('                    FirstBank = False;\n                    break;\n                case eHexFormatTek:', '                    break;\n                case eHexFormatTek:')],
  "m19_reccnt_carry": [('                RecCnt = ErgLen / GrpLineLen;\n', '                { static Word Keep = 0; if (!Keep) Keep = ErgLen / GrpLineLen; RecCnt = Keep; }\n')],
+ # RemoveOffset() (toolutils.c) without `*Offset = 0`: a source file named without "(offset)" inherits the offset of the
+ # argument handled before it (same walk of the file list, or the MeasureFile walk before the ProcessFile walk)
+ "m20_offset_carry": [('    *Offset = 0;\n    if ((*Name) && (Name[strlen(Name) - 1] == \')\')) {', '    if ((*Name) && (Name[strlen(Name) - 1] == \')\')) {')],
  "m17_offset": [('                InpStart += Offset;\n                ErgStart = max', '                ErgStart = max')],
 }
 REVERT = ["mos-line-checksum", "mos-terminator-count", "tek-checksums", "line-splitting", "moto-type-after-relocation",
@@ -36,7 +39,7 @@ def mutate(name, repo):
         subprocess.run(["git", "apply", "-R", "/verif/proposed_fixes/C06-%s.diff" % name[2:]], cwd=repo, check=True)
         return
     n = 0
-    for f in ("p2hex.c", "headids.c"):
+    for f in ("p2hex.c", "headids.c", "toolutils.c"):
         p = os.path.join(repo, f)
         s = open(p).read()
         for a, b in MUT[name]:
@@ -68,7 +71,7 @@ if __name__=="__main__":
     if "--dry" in sys.argv:            # only check that every mutation still applies to the current tree
         for n in names:
             d="/tmp/c06-selftest-dry"; shutil.rmtree(d, ignore_errors=True); os.makedirs(d)
-            for f in ("p2hex.c","headids.c"): shutil.copy(os.path.join("/repo",f), d)
+            for f in ("p2hex.c","headids.c","toolutils.c"): shutil.copy(os.path.join("/repo",f), d)
             mutate(n, d); print("applies:", n)
         shutil.rmtree(d, ignore_errors=True); sys.exit(0)
     with cf.ThreadPoolExecutor(2) as ex: list(ex.map(run,names))
